@@ -102,6 +102,7 @@ package car
 //@   loop[0] invariant offset [C03]: sectionOffset == pos(reader) - sbase(reader) - dataOffset
 //@   loop[0] invariant nonneg [C03]: dataOffset >= 0
 //@   loop[0] invariant reader_ok [C03]: objinv(reader)
+//@   loop[0] decreases lim(reader) - pos(reader)
 //@   loop[0] step every_admitted_section_recorded [C03]: len(records) == athead(0, len(records)) + ite(o.StoreIdentityCIDs || mhtype(c) != 0, 1, 0)
 //@   call[append#0] assert record_offset [C03]: arg1[0].Offset == wrap_u64(athead(0, pos(reader)) - sbase(reader) - dataOffset)
 //@   call[append#0] assert record_cid [C03]: arg1[0].Cid == c
@@ -145,6 +146,7 @@ package car
 
 //@ func (*Reader).Inspect
 //@   loop[0] invariant reader_ok [C13]: objinv(bdr)
+//@   loop[0] decreases lim(bdr) - pos(bdr)
 //@   let dr, derr := call[Reader.DataReader#0]
 //@   let bdr := call[io.ToByteReader#0]
 //@   let sectionLength, slerr := call[varint.ReadUvarint#0]
